@@ -34,7 +34,9 @@ def gram_of(cr, u):
         row = []
         for j in range(3):
             k = int(round(g[i, j]))
-            if abs(g[i, j] - k) > 1e-6 * max(1.0, abs(k)):
+            # residual relative to the lengths of the two vectors (an off-diagonal entry of 1 between vectors of squared
+            # length 2000 carries the absolute rounding error of those vectors)
+            if abs(g[i, j] - k) > 1e-6 * max(1.0, abs(k), math.sqrt(abs(g[i, i] * g[j, j]))):
                 off = True
             row.append(k)
         out.append(row)
